@@ -238,7 +238,7 @@ def configs(tier):
 # ------------------------------------------------------------------------------------------
 # binding with real models
 
-def run_real(acc, model_name, n_iter, frac, power):
+def run_real(acc, model_name, n_iter, frac, power, annealing=None):
     """Complete fits through `algo.run`; the SAME algorithm instance is then run a second time on a fresh model
     (an algorithm object may be reused: every run must follow the schedule from its own first iteration)."""
     from ..models import MODEL_SPECS, build_model, cohort_dataset
@@ -246,10 +246,16 @@ def run_real(acc, model_name, n_iter, frac, power):
     spec = MODEL_SPECS[model_name]
     ds = cohort_dataset(["a", "b", "d"], spec)
     case = {"kind": "real", "model": model_name, "n_iter": n_iter, "frac": frac, "power": power}
+    kw = {}
+    if annealing:
+        # simulated annealing that OUTLASTS the memory-less phase: the chain is still heated while statistics are averaged;
+        # the schedule of the statistics is a function of the iteration number only
+        kw["annealing"] = dict(do_annealing=True, initial_temperature=3.0, n_plateau=3, n_iter_frac=annealing)
+        case["annealing"] = annealing
     with warnings.catch_warnings():
         warnings.simplefilter("ignore")
         settings = AlgorithmSettings("mcmc_saem", n_iter=n_iter, progress_bar=False, seed=0,
-                                     n_burn_in_iter_frac=frac, burn_in_step_power=power)
+                                     n_burn_in_iter_frac=frac, burn_in_step_power=power, **kw)
         algo = algorithm_factory(settings)
     n_b = int(frac * n_iter)
     for run_index in (1, 2):
@@ -323,6 +329,10 @@ def shards(tier, seed):
                   for n, f, p in ((8, 0.5, 0.8), (7, 0.0, 1), (5, 1, 0.75))]
     for r in reals:
         out.append({"kind": "real", "args": list(r), "tier": tier})
+    out.append({"kind": "real", "args": ["logistic_d2_s1_diag", 8, 0.25, 0.8, 0.75], "tier": tier})
+    if tier == "thorough":
+        out.append({"kind": "real", "args": ["joint_d2_s1_diag", 9, 0.0, 1, 1.0], "tier": tier})
+        out.append({"kind": "real", "args": ["linear_d2_s0_scalar", 8, 0.5, 0.6, 0.9], "tier": tier})
     return out
 
 
@@ -351,7 +361,7 @@ def run_shard(shard):
 def replay(case):
     if case.get("kind") == "real":
         acc = Acc()
-        run_real(acc, case["model"], case["n_iter"], case["frac"], case["power"])
+        run_real(acc, case["model"], case["n_iter"], case["frac"], case["power"], case.get("annealing"))
         return [{"signature": v["signature"], "message": v["message"]} for v in acc.violations.values()]
     cfg = {k: case[k] for k in ("n_iter", "frac", "count", "power", "route", "annealing") if k in case}
     if isinstance(cfg["power"], str):  # NaN / inf are stored as text in JSON
